@@ -18,10 +18,15 @@ type sentinel struct{ n int }
 
 var theSentinel = &sentinel{42}
 
+// typedTables: non-empty arrays of objects are built as []map[string]any; their spare capacity holds sentinelMap
+var typedTables bool
+
+var sentinelMap = map[string]any{"$sentinel": true}
+
 const spareCap = 2
 
 type shadow struct {
-	kind   int // 0 scalar, 1 map, 2 slice
+	kind   int // 0 scalar, 1 map, 2 slice, 3 []map[string]any
 	scalar any
 	ptr    uintptr
 	keys   []string
@@ -84,6 +89,21 @@ func buildValue(v any, nativeInts bool) (any, *shadow) {
 		sh.ptr = reflect.ValueOf(out).Pointer()
 		return out, sh
 	case []any:
+		if typedTables && allObjects(x) {
+			out := make([]map[string]any, len(x), len(x)+spareCap)
+			sh := &shadow{kind: 3, length: len(x), capa: len(x) + spareCap}
+			for i := range x {
+				c, csh := buildValue(x[i], nativeInts)
+				out[i] = c.(map[string]any)
+				sh.kids = append(sh.kids, csh)
+			}
+			full := out[:cap(out)]
+			for i := len(x); i < cap(out); i++ {
+				full[i] = sentinelMap
+			}
+			sh.ptr = reflect.ValueOf(out).Pointer()
+			return out, sh
+		}
 		out := make([]any, len(x), len(x)+spareCap)
 		sh := &shadow{kind: 2, length: len(x), capa: len(x) + spareCap}
 		for i := range x {
@@ -105,6 +125,15 @@ func buildValue(v any, nativeInts bool) (any, *shadow) {
 	default:
 		return x, &shadow{scalar: x}
 	}
+}
+
+func allObjects(x []any) bool {
+	for _, e := range x {
+		if _, ok := e.(map[string]any); !ok {
+			return false
+		}
+	}
+	return len(x) > 0
 }
 
 func (s *shadow) diff(doc map[string]any) []string {
@@ -166,6 +195,8 @@ func (d *differ) walk(s *shadow, v any, path string) {
 			d.walk(s.kids[i], c, path+"."+k)
 		}
 		d.path = d.path[:len(d.path)-1]
+	case 3:
+		d.walkTyped(s, v, path)
 	case 2:
 		a, ok := v.([]any)
 		if !ok {
@@ -188,6 +219,30 @@ func (d *differ) walk(s *shadow, v any, path string) {
 		for i := 0; i < s.length && i < len(a); i++ {
 			d.walk(s.kids[i], a[i], fmt.Sprintf("%s[%d]", path, i))
 		}
+	}
+}
+
+func (d *differ) walkTyped(s *shadow, v any, path string) {
+	a, ok := v.([]map[string]any)
+	if !ok {
+		d.add("%s: typed array replaced by %s", path, describe(v))
+		return
+	}
+	if len(a) != s.length {
+		d.add("%s: array length changed from %d to %d", path, s.length, len(a))
+	}
+	if cap(a) != s.capa || reflect.ValueOf(a).Pointer() != s.ptr {
+		d.add("%s: array resliced or reallocated", path)
+		return
+	}
+	full := a[:cap(a)]
+	for i := s.length; i < s.capa && i < len(full); i++ {
+		if reflect.ValueOf(full[i]).Pointer() != reflect.ValueOf(sentinelMap).Pointer() {
+			d.add("%s: spare capacity slot %d overwritten with %s", path, i, describe(full[i]))
+		}
+	}
+	for i := 0; i < s.length && i < len(a); i++ {
+		d.walk(s.kids[i], a[i], fmt.Sprintf("%s[%d]", path, i))
 	}
 }
 
@@ -219,6 +274,8 @@ func describe(v any) string {
 		return fmt.Sprintf("object(%d keys)", len(x))
 	case []any:
 		return fmt.Sprintf("array(len %d)", len(x))
+	case []map[string]any:
+		return fmt.Sprintf("typed array(len %d)", len(x))
 	case string:
 		return fmt.Sprintf("%q", x)
 	case float64, bool, int:
